@@ -156,6 +156,11 @@ def run(ctx, res):
                     res.violation("correspondence", "model and implementation of Output.format disagree", tie=True,
                                   layer="correspondence E (Output.format)", ddl=h["text"], mode=mode,
                                   impl=impl_outcome(i) if impl_outcome(i)[0] != "ok" else "ok(differs)", model=model_outcome(m) if model_outcome(m)[0] != "ok" else "ok(differs)")
+    # ---- correspondence D on every ALTER / INDEX / CREATE statement of the histories, F on the whole scripts -----------------
+    if ctx.model:
+        sub = st[:: (1 if ctx.thorough else 2)]
+        corr_parse(ctx, res, [s_ for a in sub if "ok" in a for s_ in a["ok"]["statements"]], norms=(False,))
+        corr_run(ctx, res, [h["text"] for h in hs[:: (1 if ctx.thorough else 2)]])
     # ---- a later run() in the same process must not see the tables of an earlier one ---------------------------
     pairs = []
     for h in hs[: (400 if ctx.thorough else 60)]:
